@@ -97,6 +97,11 @@ var reg = vk.Registry{
 		_ = json.Unmarshal(raw, &c)
 		return checkParse(c)
 	},
+	"batchsplit": func(raw json.RawMessage) *vk.Violation {
+		var c splitk.Case
+		_ = json.Unmarshal(raw, &c)
+		return splitk.Shape(c, splitk.RunBatch(c))
+	},
 }
 
 func TestReplay(t *testing.T) { vk.RunReplay(t, reg) }
@@ -139,6 +144,14 @@ func eval(t vk.TB, c splitk.Case, constructed bool) {
 	rec.Sample(c.Proto, map[string]any{"proto": c.Proto, "coding": c.Coding, "ref": c.Ref, "text_bytes": len(c.Text) / 2, "parts": len(r.Parts), "err": fmt.Sprint(r.Err)})
 	rec.Report(t, "split", splitk.Shape(c, r))
 	rec.Report(t, "split", parseParts(c, r))
+	// the batch builder with this coding as its only candidate is the third entry point
+	if c.TextString() != "" {
+		rec.Eval()
+		if v := splitk.Shape(c, splitk.RunBatch(c)); v != nil {
+			v.Key = "batch:" + v.Key
+			rec.Report(t, "batchsplit", v)
+		}
+	}
 }
 
 func TestGrid(t *testing.T) {
@@ -158,13 +171,17 @@ func TestGrid(t *testing.T) {
 		ch     string
 		w      int
 	}{{"cmpp", 0, "a", 1}, {"cmpp", 8, "中", 2}, {"cmpp", 9, "中", 2}, {"cmpp", 15, "a", 1}, {"cmpp", 15, "中", 2},
-		{"smpp", 0, "a", 1}, {"smpp", 1, "a", 1}, {"smpp", 3, "é", 1}, {"smpp", 8, "中", 2}, {"smpp", 99, "a", 1}, {"smpp", 99, "[", 2}, {"smpp", 7, "a", 2}} {
+		{"smpp", 0, "a", 1}, {"smpp", 1, "a", 1}, {"smpp", 3, "é", 1}, {"smpp", 8, "中", 2}, {"smpp", 99, "a", 1}, {"smpp", 99, "[", 2}, {"smpp", 7, "a", 2},
+		// contents made of multi-unit characters only: every part ends early, so the part count exceeds ceil(units/capacity)
+		{"smpp", 0, "[", 2}, {"smpp", 0, "€", 2}, {"smpp", 8, "😀", 4}, {"cmpp", 8, "😀", 4}, {"cmpp", 9, "𠮷", 4}, {"cmpp", 15, "😀", 4}, {"cmpp", 15, "中", 2}} {
 		k, ok := splitk.KindOf(pc.proto, pc.coding)
 		if !ok {
 			k = ref.KUCS2
 		}
 		_, per := k.Limits()
-		for _, units := range []int{254 * per, 255*per - 1, 255 * per, 255*per + 1, 255*per + 2, 256 * per, 300 * per} {
+		eff := per - per%pc.w // what a part really holds when every character is pc.w units wide
+		for _, units := range []int{254 * per, 255*per - 1, 255 * per, 255*per + 1, 255*per + 2, 256 * per, 300 * per,
+			254 * eff, 255*eff - pc.w, 255 * eff, 255*eff + pc.w, 255*eff + 2*pc.w, 256 * eff} {
 			i++
 			if !env.Mine(i) {
 				continue
